@@ -527,6 +527,54 @@ def r08_4(prog, rep, rid='R08.4', sweep=False):
 
 
 # ------------------------------------------------------------------------------
+# R08.5  cancel handlers do not mutate the container they iterate
+#
+CANCEL_SITES = [(SBASE, 'control_cb'), (SBASE, '_schedule_incoming'),
+                (EBASE, 'control_cb'), (POPEN, '_check_running'),
+                (POPEN, 'cancel_task'), (COMP, '_control_cb'),
+                (COMP, 'is_canceled')]
+
+
+def r08_5(prog, rep, rid='R08.5', sweep=False):
+    rep.rule(rid, 'the loops of the cancel handlers do not remove from / add '
+             'to the container they are iterating (an element next to a '
+             'removed one would be skipped: a named task stays behind)',
+             minimum=len(CANCEL_SITES))
+    sites = []
+    for anchor, mname in CANCEL_SITES:
+        sites.append(prog.find_method(prog.cls(*anchor), mname))
+    if sweep:
+        sites = []
+        for m in prog.modules.values():
+            for f in m.funcs.values():
+                sites.append(f)
+            for k in m.classes.values():
+                sites += list(k.methods.values())
+    for f in sites:
+        if f is None:
+            raise AnalysisError('R08.5: anchor missing')
+        muts = I.iterated_container_mutations(f)
+        if sweep:
+            for loop, hit in muts:
+                rep.info(rid + 's', f, 'loop over `%s` mutates it: `%s`'
+                         % (short(loop.iter, 40), short(hit, 50)),
+                         f.loc(hit))
+            continue
+        rep.saw(f)
+        if not muts:
+            rep.ok(rid, f, '%s: no loop mutates the container it iterates'
+                   % f.qual, f.loc())
+        for loop, hit in muts:
+            rep.bad(rid, f, hit, '%s iterates `%s` and executes `%s` inside '
+                    'the loop without leaving it: the element following a '
+                    'removed one is skipped' % (f.qual, short(loop.iter, 40),
+                                                short(hit, 50)), f.loc(hit),
+                    history='cancel request naming two tasks which are '
+                    'adjacent in the backlog: the second one is not removed, '
+                    'is not reported CANCELED and is later started')
+
+
+# ------------------------------------------------------------------------------
 #
 def run(prog, rep, tier):
     rep.decided = ("the cancel list grows only by arg['uids'] of cancel_tasks "
@@ -548,6 +596,7 @@ def run(prog, rep, tier):
     r08_1(prog, rep)
     r08_3(prog, rep)
     r08_4(prog, rep)
+    r08_5(prog, rep)
     from .c04 import r04_5
     r04_5(prog, rep, rid='R04.5')
     from .c07 import r07_2
@@ -556,6 +605,9 @@ def run(prog, rep, tier):
         rep.rule('R08.4s', 'sweep: message key agreement for every command '
                  'handler in the package', minimum=0)
         r08_4(prog, rep, sweep=True)
+        rep.rule('R08.5s', 'sweep: loops which mutate the container they '
+                 'iterate, package wide (information)', minimum=0)
+        r08_5(prog, rep, sweep=True)
 
 
 # ------------------------------------------------------------------------------
@@ -618,6 +670,10 @@ MUTATIONS = [
         (_S, "                                to_cancel.append(task)\n                                del self._waitpool[priority][uid]\n", "                                to_cancel.append(task)\n")]),
     dict(name='R07.2 cancel without arbitration', rules=('R07.2',), edits=[
         (_P, "        with self._check_lock:\n            if tid not in self._tasks:\n                return\n            try:\n                del self._tasks[tid]", "        with self._check_lock:\n            try:\n                del self._tasks[tid]")]),
+    dict(name='R08.5 raptor backlog pruned while iterating it (seed C08-a)', rules=('R08.5',), edits=[
+        (_S, "                    matches = [t for t in self._raptor_tasks[queue]\n                                       if t['uid'] in uids]\n                    for task in matches:\n                        to_cancel.append(task)\n                        self._raptor_tasks[queue].remove(task)\n", "                    for task in self._raptor_tasks[queue]:\n                        if task['uid'] in uids:\n                            to_cancel.append(task)\n                            self._raptor_tasks[queue].remove(task)\n")]),
+    dict(name='R08.5 watcher iterates the live watch list', rules=('R08.5',), edits=[
+        (_P, "        for task in list(to_watch):\n", "        for task in to_watch:\n")]),
 ]
 
 SILENT = [
